@@ -148,6 +148,7 @@ type Sim struct {
 	traceCap int
 
 	onStep func() // invariants at each quiescent point (driver goroutine)
+	holdEvents bool // when set, step() releases parked goroutines only
 
 	siteHits map[string]int64
 	overrun  bool
@@ -268,9 +269,11 @@ func (s *Sim) step() bool {
 	now := s.Now()
 	var due []*simEvent
 	// collect due events (all with at<=now); they stay in heap order
-	for _, e := range s.events {
-		if e.at <= now {
-			due = append(due, e)
+	if !s.holdEvents {
+		for _, e := range s.events {
+			if e.at <= now {
+				due = append(due, e)
+			}
 		}
 	}
 	np := len(s.parked)
